@@ -8,8 +8,8 @@ def _c08_classes(i, o):
     if i[1] or i[2]:
         cls.append('prepopulated')
     for op in i[3]:
-        cls.append('op=' + {0: 'call', 1: 'concurrent', 2: 'release'}.get(op[0], '?'))
-        for c in op[1:]:
+        cls.append('op=' + {0: 'call', 1: 'concurrent', 2: 'release', 3: 'parked_on_backpressure'}.get(op[0], '?'))
+        for c in (op[1:] if op[0] != 3 else [op[1]] + op[2]):
             cls.append('call=' + {0: 'commit_result', 1: 'execute_and_commit'}.get(c[0], '?'))
     if isinstance(o, list):
         for ph in o:
@@ -25,7 +25,8 @@ PROPS = {
     'C08': dict(
         id='C08', cluster='Importer', crate='h-importer', tag=8,
         n={'quick': 1500, 'thorough': 20000}, shard=100,
-        theorems=['commit_ok_iff', 'failure_leaves_db', 'busy_rejects', 'busy_rejects_concurrent', 'broadcast_trace',
+        theorems=['commit_ok_iff', 'failure_leaves_db', 'busy_rejects', 'busy_rejects_concurrent', 'parked_call_rejects_others',
+                  'parks_meaning', 'broadcast_trace',
                   'model_refines_spec', 'trace_okb_sound', 'replay_meaning'],
         classify=_c08_classes,
         rule='random histories of 1..25 (thorough 40) operations on the real Importer: commit_result (local/network source) and '
@@ -33,7 +34,9 @@ PROPS = {
              'the wrong consensus kind, genesis at 0/1/5/113/u32::MAX-1/u32::MAX, 0..3 transactions (fresh, already stored, repeated inside '
              'the block), an execution change set that overwrites the block Merkle metadata or inserts a foreign block row, injected '
              'verifier / executor / write-port / storage-commit failures, notification buffer 1..3 (or 64) with subscriber release ops, '
-             'a second call while the first is held inside a port (guard taken), orphan consensus / transaction rows pre-inserted in a fifth of '
+             'a second call while the first is held inside a port (guard taken); when the notification buffer is full: a call that parks on the '
+             'back-pressure wait (driven step by step by its wake-ups), 1..3 further calls attempted meanwhile (same height as the parked one, the '
+             'next height, anything), then the release and the completion of the parked call; orphan consensus / transaction rows pre-inserted in a fifth of '
              'the cases. Observed per call: result variant, latest height, sorted keys of FuelBlocks / SealedBlockConsensus / Transactions / '
              'marker rows, root marker (index of first appearance), held results, ordered log of write-port calls, storage commits and '
              'announcements (drained inside the storage commit and after the call). non-trivial = distinct history with a non-empty observation',
